@@ -348,7 +348,7 @@ def corpus_case(draw, max_tokens, max_sents):
     if fmt in ("export", "tigerxml") and draw(st.integers(0, 3)) == 0:
         opts["continuous"] = True
     if fmt in ("brackets", "discobrackets") and draw(st.integers(0, 3)) == 0:
-        opts["brackets_firstid"] = draw(st.integers(0, 500))
+        opts["brackets_firstid"] = draw(st.one_of(st.sampled_from([0, 0, 1, 1000]), st.integers(0, 500)))
     emptypos = False
     if fmt == "brackets" and draw(st.integers(0, 3)) == 0:
         opts["brackets_emptypos"] = True
